@@ -2,6 +2,8 @@ import KyupyVerif.Proofs.HeapInv
 import KyupyVerif.Proofs.MemRef
 import KyupyVerif.Model.MapCert
 import KyupyVerif.Proofs.MapSound
+import KyupyVerif.Proofs.MemMapAccept
+import KyupyVerif.Gen.Tables
 /-! # C08 — signal-memory map and allocator never let live data overlap
 
 **Allocator** (all alloc/free histories — theorems): `Heap` is an address-ordered list model of `sim.Heap`
@@ -11,10 +13,22 @@ evaluated on the REAL `ops`, `level_starts`, `c_locs`, `c_caps`, `c_len` of ever
 SOUND (`map_certificate_sound`, `map_certificate_sound_logic`): whenever it accepts, running the real op rows on memory
 — operands read through `c_locs/c_caps` of the operand index, results written to the region of the output index, in
 program order or any other order that respects `level_starts` — leaves in every observed region (input slots, the zero
-slot, every output slot) exactly the value signal-level execution computes, which does not mention the map. What stays
-per instance: that the map `SimOps` builds passes the checker (no theorem for all circuits; the Lean model of the map
-construction is compared with the real tables on every generated instance and the checker runs on the real tables).
-`mem_refines` is the older abstract form of the same argument. -/
+slot, every output slot) exactly the value signal-level execution computes, which does not mention the map.
+**The scheduler always passes the certificate** (`simops_map_accepted`, theorem for ALL circuits): for every netlist
+whose pin tables and line records refer to each other (`Net.wfB`), every topological order (`orderOKB`), both
+`strip_forks` settings (with `forksOKB` when stripping), both `c_reuse` settings, every capacity vector and every
+`c_caps_min > 0`, the tables computed by the Lean model of `SimOps.__init__` (`genOps`, `stemsOf`, `levelise`, `memMap`
+incl. the first-fit allocator; hand model of sim.py:159-333, tied to the real code by exact correspondence of `ops`,
+`level_starts`, `c_locs`, `c_caps`, `c_len` on every generated instance) are accepted by `MapIn.check` — under the
+domain hypothesis `readsDrivenB`: every line read by a scheduled gate or captured by an interface node is written by
+a row of the program (no reader hangs on a cell of unknown kind, on an output pin `SimOps` does not schedule, or on a
+node outside the order; `readsDriven_needed` shows the map of such a netlist is rejected, in the model and in the real
+code). Consequences without any per-instance certificate: `simops_memory_sound`, `simops_memory_sound_logic`
+(and `C01.logic_sim_end_to_end_all_circuits`, `C07.memory_any_schedule_all_circuits`). What stays correspondence: that the
+real `SimOps.__init__` computes the tables of the model (compared exactly on every generated instance; the certificate is
+still evaluated on the real tables as an independent check); the hypotheses `wfB`, `orderOKB`, `forksOKB`, `readsDrivenB`
+are evaluated by the driver on the real circuit and the real topological order (`simopscert`).
+`mem_refines` is the older abstract form of the soundness argument. -/
 namespace KV.C08
 open KV KV.Heap
 
@@ -123,6 +137,114 @@ example : demoMap.check = none ∧ demoMapStrip.check = none ∧ demoMap.ppoSrcs
 /-- … and the checker is not trivially accepting: moving line 4 onto the still-live line 2 is rejected -/
 example : ({ demoMap with locs := #[5, 6, 7, 8, 7, 6, 0, 1, 2, 3, 4, -1, -1, -1, 6] } : MapIn).check
     = some "live signals overlap" := by decide +kernel
+
+
+/-! ### the scheduler's map is always accepted -/
+
+/-- **for ALL circuits**: the memory map `SimOps.__init__` builds (Lean model `genOps` / `stemsOf` / `levelise` / `memMap`
+    with the first-fit allocator, equal to the real `ops`, `level_starts`, `c_locs`, `c_caps`, `c_len` by exact
+    correspondence) passes the map certificate — every well-formed netlist, every topological order, `strip_forks` on or
+    off (`forksOKB` when on), `c_reuse` on or off, every capacity vector `capsIn`, every positive `c_caps_min`.
+    `readsDrivenB`: every line that is read or captured is written by a row (known cell kinds, scheduled output pins).
+    The record is assembled exactly as the harness does from the real tables (`cLen` = the heap's `max_size`). -/
+theorem simops_map_accepted (tbl : List PrefixRow) (net : Net) (order : List Nat) (strip : Bool) (capsIn : Nat → Nat)
+    (capsMin : Nat) (reuse : Bool) (hwf : net.wfB = true) (ho : orderOKB net order = true)
+    (hf : strip = true → forksOKB net order = true) (hr : readsDrivenB tbl net order = true) (hpos : 0 < capsMin) :
+    let ops := genOps tbl net order strip
+    let st := stemsOf net strip
+    let lev := levelise net.idx.len st ops
+    let m := memMap net ops st lev capsIn capsMin reuse
+    ({ net := net, strip := strip, ops := ops, starts := lev.starts.reverse, locs := m.locs, caps := m.caps,
+       cLen := m.heap.maxSz, capsMin := capsMin } : MapIn).check = none :=
+  simopsMap_accepted tbl net order strip capsIn capsMin reuse hwf ho hf hr hpos
+
+/-- the case `c_reuse = False` (nothing is ever released: all regions pairwise disjoint) -/
+theorem simops_map_accepted_noreuse (tbl : List PrefixRow) (net : Net) (order : List Nat) (strip : Bool)
+    (capsIn : Nat → Nat) (capsMin : Nat) (hwf : net.wfB = true) (ho : orderOKB net order = true)
+    (hf : strip = true → forksOKB net order = true) (hr : readsDrivenB tbl net order = true) (hpos : 0 < capsMin) :
+    (simopsMap tbl net order strip capsIn capsMin false).check = none :=
+  simopsMap_accepted tbl net order strip capsIn capsMin false hwf ho hf hr hpos
+
+/-- the facts about the generated program the acceptance proof rests on (`ProgOK`): one writer per line, every operand
+    (through stems) is the zero slot, an input slot or a line written by an earlier row in a strictly earlier level,
+    `level_starts` begins with 0 and increases, captured signals are written lines, stems are no branches -/
+theorem simops_program_facts (tbl : List PrefixRow) (net : Net) (order : List Nat) (strip : Bool) (capsIn : Nat → Nat)
+    (capsMin : Nat) (reuse : Bool) (hwf : net.wfB = true) (ho : orderOKB net order = true)
+    (hf : strip = true → forksOKB net order = true) (hr : readsDrivenB tbl net order = true) :
+    ProgOK (simopsMap tbl net order strip capsIn capsMin reuse) :=
+  simops_progOK tbl (simopsMap tbl net order strip capsIn capsMin reuse) order hwf ho hf hr rfl rfl
+
+/-- **memory-level execution = signal-level execution for the map `SimOps` builds — no per-instance certificate**:
+    `map_certificate_sound` with the hypothesis `p.check = none` discharged by `simops_map_accepted` -/
+theorem simops_memory_sound {α C : Type} (tbl : List PrefixRow) (net : Net) (order : List Nat) (strip : Bool)
+    (capsIn : Nat → Nat) (capsMin : Nat) (reuse : Bool) (hwf : net.wfB = true) (ho : orderOKB net order = true)
+    (hf : strip = true → forksOKB net order = true) (hr : readsDrivenB tbl net order = true) (hpos : 0 < capsMin)
+    (R : MapSound.RW α C) (sem : OpRow → List α → α)
+    (hfit : ∀ o ∈ (simopsMap tbl net order strip capsIn capsMin reuse).ops, ∀ args m,
+      R.rd ((simopsMap tbl net order strip capsIn capsMin reuse).loc o.out)
+        ((simopsMap tbl net order strip capsIn capsMin reuse).cap o.out)
+        (R.wr ((simopsMap tbl net order strip capsIn capsMin reuse).loc o.out)
+          ((simopsMap tbl net order strip capsIn capsMin reuse).cap o.out) (sem o args) m) = sem o args)
+    (m0 : Int → C) (env0 : Nat → α)
+    (h0 : ∀ x ∈ (simopsMap tbl net order strip capsIn capsMin reuse).tracked,
+      (∀ o ∈ (simopsMap tbl net order strip capsIn capsMin reuse).ops, o.out ≠ x) →
+        MapSound.rdS (simopsMap tbl net order strip capsIn capsMin reuse) R x m0 = env0 x) :
+    let p := simopsMap tbl net order strip capsIn capsMin reuse
+    (∀ x ∈ p.tracked, p.pinned x = true →
+      MapSound.rdS p R x (MapSound.memRun p R sem p.ops m0) = MapSound.sigRun p sem p.ops env0 x) ∧
+    (∀ j s, (j, s) ∈ p.ppoSrcs →
+      MapSound.rdS p R j (MapSound.memRun p R sem p.ops m0) = MapSound.sigRun p sem p.ops env0 s) :=
+  map_certificate_sound _ (simopsMap_accepted tbl net order strip capsIn capsMin reuse hwf ho hf hr hpos) R sem hfit m0 env0 h0
+
+/-- the same for LogicSim's storage (one row per signal): the row of output slot `j` holds what `Sig.exec` computes -/
+theorem simops_memory_sound_logic {α : Type} [Inhabited α] (tbl : List PrefixRow) (net : Net) (order : List Nat)
+    (strip : Bool) (capsIn : Nat → Nat) (capsMin : Nat) (reuse : Bool) (hwf : net.wfB = true)
+    (ho : orderOKB net order = true) (hf : strip = true → forksOKB net order = true)
+    (hr : readsDrivenB tbl net order = true) (hpos : 0 < capsMin)
+    (f : Nat → List α → α) (m0 : Int → α) (env0 : Nat → α)
+    (h0 : ∀ x ∈ (simopsMap tbl net order strip capsIn capsMin reuse).tracked,
+      (∀ o ∈ (simopsMap tbl net order strip capsIn capsMin reuse).ops, o.out ≠ x) →
+        m0 ((simopsMap tbl net order strip capsIn capsMin reuse).loc x) = env0 x) :
+    let p := simopsMap tbl net order strip capsIn capsMin reuse
+    ∀ j s, (j, s) ∈ p.ppoSrcs →
+      MapSound.memRun p (MapSound.rowRW α) (fun o => f o.lut) p.ops m0 (p.loc j)
+        = Sig.exec f (p.ops.map (MapSound.sigOp p)) env0 s :=
+  map_certificate_sound_logic _ (simopsMap_accepted tbl net order strip capsIn capsMin reuse hwf ho hf hr hpos) hpos
+    f m0 env0 h0
+
+/-- non-vacuity: `demoNet` in its natural order satisfies every hypothesis … -/
+def demoOrder : List Nat := [0, 2, 1, 3, 4, 5, 6]
+theorem demo_hyps : demoNet.wfB = true ∧ orderOKB demoNet demoOrder = true ∧ forksOKB demoNet demoOrder = true ∧
+    readsDrivenB Gen.kindPrefixes demoNet demoOrder = true := by decide +kernel
+/-- … the record of the model IS the record of the REAL tables above (`SimOps(c_reuse=True)`, with and without
+    `strip_forks`) … -/
+example : (simopsMap Gen.kindPrefixes demoNet demoOrder false (fun _ => 1) 1 true).ops = demoMap.ops ∧
+   (simopsMap Gen.kindPrefixes demoNet demoOrder false (fun _ => 1) 1 true).starts = demoMap.starts ∧
+   (simopsMap Gen.kindPrefixes demoNet demoOrder false (fun _ => 1) 1 true).locs = demoMap.locs ∧
+   (simopsMap Gen.kindPrefixes demoNet demoOrder false (fun _ => 1) 1 true).caps = demoMap.caps ∧
+   (simopsMap Gen.kindPrefixes demoNet demoOrder false (fun _ => 1) 1 true).cLen = demoMap.cLen ∧
+   (simopsMap Gen.kindPrefixes demoNet demoOrder true (fun _ => 1) 1 true).ops = demoMapStrip.ops ∧
+   (simopsMap Gen.kindPrefixes demoNet demoOrder true (fun _ => 1) 1 true).starts = demoMapStrip.starts ∧
+   (simopsMap Gen.kindPrefixes demoNet demoOrder true (fun _ => 1) 1 true).locs = demoMapStrip.locs ∧
+   (simopsMap Gen.kindPrefixes demoNet demoOrder true (fun _ => 1) 1 true).caps = demoMapStrip.caps ∧
+   (simopsMap Gen.kindPrefixes demoNet demoOrder true (fun _ => 1) 1 true).cLen = demoMapStrip.cLen := by decide +kernel
+/-- … and the theorem applies, for every capacity vector and both options -/
+example (strip reuse : Bool) (capsIn : Nat → Nat) :
+    (simopsMap Gen.kindPrefixes demoNet demoOrder strip capsIn 4 reuse).check = none :=
+  simops_map_accepted Gen.kindPrefixes demoNet demoOrder strip capsIn 4 reuse demo_hyps.1 demo_hyps.2.1
+    (fun _ => demo_hyps.2.2.1) demo_hyps.2.2.2 (by decide)
+
+/-- the hypothesis `readsDrivenB` cannot be dropped: a cell of unknown kind writes nothing (`SimOps` prints
+    "unknown cell type" and goes on), the output port captures a line that never gets memory (`c_locs = -1`, the same in the
+    real code), and the certificate rejects the map -/
+def unknownNet : Net :=
+  { nodes := #[⟨"input", [], [some 0]⟩, ⟨"MYSTERY", [some 0], [some 1]⟩, ⟨"output", [some 1], []⟩],
+    lines := #[⟨0, 0, 1, 0⟩, ⟨1, 0, 2, 0⟩], io := [0, 2] }
+theorem readsDriven_needed : unknownNet.wfB = true ∧ orderOKB unknownNet [0, 1, 2] = true ∧
+    forksOKB unknownNet [0, 1, 2] = true ∧ readsDrivenB Gen.kindPrefixes unknownNet [0, 1, 2] = false ∧
+    (simopsMap Gen.kindPrefixes unknownNet [0, 1, 2] false (fun _ => 1) 1 false).locs = #[4, -1, 0, 1, 2, 3, -1, -1, -1] ∧
+    (simopsMap Gen.kindPrefixes unknownNet [0, 1, 2] false (fun _ => 1) 1 false).check
+      = some "output slot alias is not exact" := by decide +kernel
 
 /-- non-vacuity: a heap with two free chunks between used ones satisfies the invariant -/
 example : HInv { cs := [⟨2, false⟩, ⟨3, true⟩, ⟨1, false⟩, ⟨4, true⟩, ⟨2, false⟩], maxSz := 12 } :=
